@@ -1736,6 +1736,459 @@ def r03_10(prog, rep, rid='R03.10'):
 
 
 # ------------------------------------------------------------------------------
+# R03.11  the node whose occupancy is written for a slot is the node the slot
+# names.  A slot carries the *index* of its node; the node list may have been
+# filtered (inaccessible nodes dropped when backup nodes are configured), so
+# positions and indices differ.  Every binding of the node variable that
+# reaches an occupancy write (a store through it, or its hand-over to a
+# helper that writes) must be a *selection by index*: between the binding and
+# the write every path takes the equality edge of a comparison of the bound
+# node's index field with the slot's node_index (search loop left on the
+# match; position guessed, then verified), or the binding is a look-up that
+# matches by construction (helper that returns such a selection, a map keyed
+# by the index field, a filter on it).  Taking `self.nodes[<node_index>]`
+# unverified marks / frees another node than the one granted.
+#
+def _last_key(e):
+    if isinstance(e, ast.Subscript) and isinstance(e.slice, ast.Constant) \
+            and isinstance(e.slice.value, str):
+        return e.slice.value
+    if isinstance(e, ast.Attribute):
+        return e.attr
+    return None
+
+
+class _NodeSelection:
+
+    DEPTH = 4
+
+    def __init__(self, prog, K, base, top):
+        from .c01 import _only_def
+        self._only_def = _only_def
+        self.prog, self.K, self.top = prog, K, top
+        self.an = _Atomicity(prog, K, base)
+        self.al = self.an.al
+        params = [p for p in top.params if p != 'self']
+        if not params:
+            raise AnalysisError('UNRECOGNISED-IDIOM %s: parameters'
+                                % top.where)
+        self.sal = I.Aliases(prog, K, {top.name: top}, params[0])
+        self.problems = {}          # key -> (f, ast node, message)
+        self.sites = set()          # node variables judged
+        self.busy = set()
+
+    # -- vocabulary ------------------------------------------------------------
+    def once(self, f):
+        return _once_bound_values(f.node, f.params)
+
+    def is_nodelist(self, f, e, depth=0):
+        if isinstance(e, ast.Call) and dotted(e.func) in ('list', 'tuple') \
+                and len(e.args) == 1 and not e.keywords:
+            return self.is_nodelist(f, e.args[0], depth)
+        if isinstance(e, ast.Name) and depth < 3:
+            v = self.once(f).get(e.id)
+            return v is not None and self.is_nodelist(f, v, depth + 1)
+        return I.is_path(e) and unparse(e) == self.al.root
+
+    def slot_index(self, f, env, e, strict=False):
+        """True: e is the node index a slot carries (`<slot>['node_index']`,
+        a local that stands for it, a helper parameter that receives it);
+        False: it is something else.  strict: what cannot be classified is
+        an unrecognised idiom, not "something else" """
+        e = self._only_def(f, e)
+        if isinstance(e, ast.Constant):
+            return False
+        if isinstance(e, ast.Name):
+            if e.id in env:
+                return env[e.id] == 'node_index'
+            if strict:
+                self.unknown(f, 'what `%s` holds when it is compared with '
+                             'the index of a node' % e.id)
+            return False
+        key = _last_key(e)
+        if key is None or not I.is_path(e):
+            if strict:
+                self.unknown(f, 'what `%s` is when it is compared with the '
+                             'index of a node' % short(e, 40))
+            return False
+        if key != 'node_index':
+            return False
+        b = e.value
+        if isinstance(b, ast.Name) and b.id in env:
+            return env[b.id] == 'slot'
+        # a node has no node_index field: what carries one is a slot
+        return not (f.name in self.al.rooted and
+                    self.al.methods.get(f.name) is f and
+                    self.al.is_rooted_expr(f.name, b))
+
+    def is_slot(self, f, env, e):
+        if isinstance(e, ast.Name) and e.id in env:
+            return env[e.id] == 'slot'
+        return f is self.top and self.sal.is_rooted_expr(f.name, e) and \
+            not self.slot_index(f, env, e)
+
+    def node_index_of(self, f, e, nv):
+        e = self._only_def(f, e)
+        return _last_key(e) == 'index' and isinstance(e.value, ast.Name) \
+            and e.value.id == nv
+
+    def is_match(self, f, env, cmp_, nv):
+        """'T' / 'F': the edge of the comparison on which the index field of
+        `nv` equals the slot's node index; None: not such a comparison"""
+        if not (isinstance(cmp_, ast.Compare) and len(cmp_.ops) == 1):
+            return None
+        op = cmp_.ops[0]
+        if isinstance(op, (ast.Eq, ast.Is)):
+            lab = 'T'
+        elif isinstance(op, (ast.NotEq, ast.IsNot)):
+            lab = 'F'
+        else:
+            return None
+        l, r = cmp_.left, cmp_.comparators[0]
+        li, ri = self.node_index_of(f, l, nv), self.node_index_of(f, r, nv)
+        if li == ri:
+            return None
+        return lab if self.slot_index(f, env, r if li else l, strict=True) \
+            else None
+
+    def match_edges(self, f, g, env, nv):
+        out = []
+        for n in g.nodes:
+            if n.kind == 'test' and n.ast is not None:
+                lab = self.is_match(f, env, n.ast, nv)
+                if lab:
+                    out.append((n.id, lab))
+        return out
+
+    def binders(self, g, name):
+        ids = set()
+        for n in g.nodes:
+            if n.ast is None:
+                continue
+            if n.kind == 'stmt' and isinstance(n.ast, (
+                    ast.Assign, ast.AnnAssign, ast.AugAssign)):
+                tg = n.ast.targets if isinstance(n.ast, ast.Assign) \
+                    else [n.ast.target]
+                if any(name in stores_in_target(t) for t in tg):
+                    ids.add(n.id)
+            elif n.kind == 'for' and name in stores_in_target(n.ast.target):
+                ids.add(n.id)
+        return ids
+
+    def reach(self, f, g, D, W, name, match=()):
+        """the use W is reached with the binding D of `name` still in force
+        (for a loop head: bound by a round of the loop and left from inside
+        it - a new round is a new binding, running off the end selects
+        nothing) and without an edge of `match` taken since.  Paths are
+        followed from the entry with the constant-valued flags of f evaluated
+        (`node_found = False` .. `if not node_found: raise`)."""
+        from .c02 import _const_flags, _truth as _truth3
+        flags = _const_flags(f)
+        binders = self.binders(g, name)
+        match = set(match)
+        todo = [(g.entry.id, (), False)]
+        seen = set()
+        while todo:
+            k = todo.pop()
+            if k in seen:
+                continue
+            seen.add(k)
+            nid, st, live = k
+            if nid == W.id and live and nid != D.id:
+                return True
+            n = g.nodes[nid]
+            known = dict(st)
+            for e in g.succ[nid]:
+                st2, live2 = st, live
+                if n.kind == 'test' and e.label in ('T', 'F') and \
+                        n.ast is not None:
+                    v = _truth3(n.ast, known)
+                    if v is not None and v != (e.label == 'T'):
+                        continue
+                    if (nid, e.label) in match:
+                        live2 = False
+                elif n.kind == 'stmt' and e.label != 'exc' and \
+                        isinstance(n.ast, ast.Assign) and \
+                        len(n.ast.targets) == 1 and \
+                        isinstance(n.ast.targets[0], ast.Name) and \
+                        n.ast.targets[0].id in flags:
+                    k2 = dict(known)
+                    k2[n.ast.targets[0].id] = n.ast.value.value
+                    st2 = tuple(sorted(k2.items(), key=lambda kv: kv[0]))
+                if nid == D.id:
+                    live2 = e.label != 'exc' and (D.kind != 'for' or
+                                                  e.label == 'iter')
+                    if live2 and e.dst == W.id and W.id == D.id:
+                        return True
+                elif nid in binders and e.label != 'exc':
+                    live2 = False
+                todo.append((e.dst, st2, live2))
+        return False
+
+    def verified(self, f, g, env, D, W, name):
+        return not self.reach(f, g, D, W, name,
+                              self.match_edges(f, g, env, name))
+
+    # -- findings --------------------------------------------------------------
+    def problem(self, kind, f, node, text):
+        self.problems.setdefault((kind, f.qual, short(node, 60)),
+                                 (f, node, text))
+
+    def unknown(self, f, what):
+        raise AnalysisError('UNRECOGNISED-IDIOM %s: %s' % (f.where, what))
+
+    # -- judging ---------------------------------------------------------------
+    def use(self, f, env, name, W, depth=0):
+        """the node held by `name` at cfg node W of f is written to"""
+        from ..flow import reaching_defs
+        if depth > 8:
+            self.unknown(f, 'alias chain of the node variable %r' % name)
+        g = cfg_of(f)
+        defs = reaching_defs(g, name, W.id)
+        if not defs:
+            if name in f.params and f is not self.top:
+                return              # judged where the helper is called
+            self.unknown(f, 'no binding of the node variable %r' % name)
+        for D, v in defs:
+            if D.kind == 'for':
+                self.loop_def(f, g, env, name, D, W)
+            elif v is None or isinstance(D.ast, ast.AugAssign):
+                self.unknown(f, 'binding of the node variable by `%s`'
+                             % short(D.ast, 50))
+            else:
+                self.value(f, g, env, name, D, v, W, depth)
+
+    def loop_def(self, f, g, env, name, D, W):
+        it = D.ast.iter
+        tg = D.ast.target
+        if isinstance(it, ast.Call) and dotted(it.func) == 'enumerate' and \
+                it.args and isinstance(tg, (ast.Tuple, ast.List)) and \
+                len(tg.elts) == 2 and isinstance(tg.elts[1], ast.Name) and \
+                tg.elts[1].id == name:
+            it = it.args[0]
+        elif not (isinstance(tg, ast.Name) and tg.id == name):
+            self.unknown(f, 'binding of the node variable by `for %s in %s`'
+                         % (short(tg, 30), short(it, 30)))
+        if not self.is_nodelist(f, it):
+            self.unknown(f, 'the node variable %r iterates `%s`'
+                         % (name, short(it, 40)))
+        if not self.reach(f, g, D, W, name):
+            self.problem('exhausted', f, D.ast,
+                         '%s: `%s` is reached from the loop `for %s in %s` '
+                         'only after the loop ran to its end: the node '
+                         'written is the last one of the list, whatever node '
+                         'the slot names' % (f.qual, short(W.ast, 50),
+                                             short(tg, 20), short(it, 30)))
+        elif not self.verified(f, g, env, D, W, name):
+            self.problem('unmatched', f, D.ast,
+                         "%s: the search `for %s in %s` can be left towards "
+                         "`%s` without the comparison %s['index'] == <the "
+                         "slot's node_index> having succeeded for the node "
+                         "that is then written: the occupancy of another "
+                         "node than the one the slot names is changed"
+                         % (f.qual, short(tg, 20), short(it, 30),
+                            short(W.ast, 50), name))
+
+    def positional(self, f, path):
+        """the sub-expression `<node list>[<position>]` of an access path"""
+        e = path
+        while isinstance(e, (ast.Attribute, ast.Subscript, ast.Starred)):
+            if isinstance(e, ast.Subscript) and \
+                    not isinstance(e.slice, ast.Slice) and \
+                    self.is_nodelist(f, e.value):
+                return e
+            e = e.value
+        return None
+
+    def by_position(self, f, env, sub, stmt):
+        if self.slot_index(f, env, sub.slice):
+            self.problem('position', f, stmt,
+                         "%s: `%s` takes the node at list position <the "
+                         "slot's node_index> and nothing verifies that the "
+                         "node found there carries that index before its "
+                         "occupancy is written.  Node indices and list "
+                         "positions differ as soon as the node list was "
+                         "filtered (a node found inaccessible is dropped "
+                         "when backup nodes are configured): the cores / "
+                         "gpus / lfs / mem of another node are marked, the "
+                         "node the task really got keeps looking free and "
+                         "is handed to the next task; the release frees "
+                         "the wrong node as well"
+                         % (f.qual, short(stmt, 60)))
+        else:
+            self.unknown(f, 'the node is taken at the computed position '
+                         '`%s`' % short(sub, 50))
+
+    def value(self, f, g, env, name, D, v, W, depth):
+        if isinstance(v, ast.Constant):
+            return                  # None: nothing can be written through it
+        if name is not None and self.verified(f, g, env, D, W, name):
+            return                  # whatever was taken is checked afterwards
+        if isinstance(v, ast.Name):
+            if v.id in self.once(f) and not I.is_path(self.once(f)[v.id]):
+                return self.value(f, g, env, None, D, self.once(f)[v.id], W,
+                                  depth + 1)
+            return self.use(f, env, v.id, D, depth + 1)
+        if I.is_path(v):
+            sub = self.positional(f, v)
+            if sub is not None:
+                return self.by_position(f, env, sub, D.ast)
+            r = root_name(v)
+            if r in self.al.rooted.get(f.name, ()) or (
+                    r in f.params and f is not self.top):
+                return self.use(f, env, r, D, depth + 1)
+            self.unknown(f, 'the node variable is bound to `%s`'
+                         % short(v, 50))
+        if isinstance(v, ast.Call):
+            callee = self.prog.resolve_call(f, v, self.K)
+            if callee is not None and callee is not f:
+                return self.returned(f, env, v, callee, depth)
+        self.unknown(f, 'how `%s` selects the node of the slot'
+                     % short(D.ast if D.ast is not None else v, 60))
+
+    def bind_env(self, f, env, call, callee):
+        params = [p for p in callee.params if p != 'self']
+        env2 = {}
+        pairs = list(zip(params, call.args)) + [
+            (k.arg, k.value) for k in call.keywords if k.arg in params]
+        for p, a in pairs:
+            if isinstance(a, ast.Starred):
+                continue
+            if self.slot_index(f, env, a):
+                env2[p] = 'node_index'
+            elif self.is_slot(f, env, a):
+                env2[p] = 'slot'
+        return env2
+
+    def returned(self, f, env, call, callee, depth):
+        """the node is what a helper returns: every returned value is judged
+        in the helper, its parameters standing for the arguments"""
+        if depth >= self.DEPTH or (id(callee.node), 'ret') in self.busy:
+            self.unknown(f, 'helper chain behind `%s`' % short(call, 40))
+        env2 = self.bind_env(f, env, call, callee)
+        g2 = cfg_of(callee)
+        self.busy.add((id(callee.node), 'ret'))
+        try:
+            n_ret = 0
+            for R in g2.nodes:
+                if R.kind != 'stmt' or not isinstance(R.ast, ast.Return):
+                    continue
+                v = R.ast.value
+                if v is None or isinstance(v, ast.Constant):
+                    continue
+                n_ret += 1
+                if isinstance(v, ast.Name):
+                    self.use(callee, env2, v.id, R, depth + 1)
+                else:
+                    self.value(callee, g2, env2, None, R, v, R, depth + 1)
+            if not n_ret:
+                self.unknown(f, '`%s` returns no node' % short(call, 40))
+        finally:
+            self.busy.discard((id(callee.node), 'ret'))
+
+    def writes(self, f, env=None, depth=0):
+        """judge every occupancy write of f (and of the helpers it hands a
+        node or a slot to)"""
+        env = env or {}
+        g = cfg_of(f)
+        n_w = 0
+        for n in g.nodes:
+            for root in _node_roots(n):
+                for kind, target, stmt in I.stores(root):
+                    if not self.an._rooted(f, target):
+                        continue
+                    n_w += 1
+                    sub = self.positional(f, target)
+                    if sub is not None:
+                        self.sites.add((f.qual, short(sub, 40)))
+                        self.by_position(f, env, sub, stmt)
+                        continue
+                    r = root_name(target)
+                    if r is None or r == 'self':
+                        self.unknown(f, 'occupancy write `%s`'
+                                     % short(stmt, 50))
+                    self.sites.add((f.qual, r))
+                    self.use(f, env, r, n)
+                for c in calls_in(root):
+                    if depth >= self.DEPTH:
+                        continue
+                    callee = self.prog.resolve_call(f, c, self.K)
+                    if callee is None or callee is f or \
+                            not self.an.summary(callee)['writes'] or \
+                            self.an.methods.get(callee.name) is not callee:
+                        continue
+                    n_w += 1
+                    for a in list(c.args) + [k.value for k in c.keywords]:
+                        if isinstance(a, ast.Starred) or \
+                                not self.al.is_rooted_expr(f.name, a) or \
+                                self.is_nodelist(f, a):
+                            continue
+                        sub = self.positional(f, a) if I.is_path(a) else None
+                        if sub is not None:
+                            self.sites.add((f.qual, short(sub, 40)))
+                            self.by_position(f, env, sub, c)
+                        elif I.is_path(a) and root_name(a) != 'self':
+                            self.sites.add((f.qual, root_name(a)))
+                            self.use(f, env, root_name(a), n)
+                        else:
+                            self.unknown(f, 'node handed to `%s`'
+                                         % short(c, 50))
+                    key = (id(callee.node), 'w')
+                    if key not in self.busy:
+                        self.busy.add(key)
+                        try:
+                            self.writes(callee, self.bind_env(f, env, c,
+                                                              callee),
+                                        depth + 1)
+                        finally:
+                            self.busy.discard(key)
+        return n_w
+
+
+def r03_11(prog, rep, rid='R03.11'):
+    rep.rule(rid, "the node whose occupancy _change_slot_states writes for a "
+             "slot was selected by its index: every binding of the node that "
+             "reaches a write passed `node['index'] == slot['node_index']` "
+             "(search left on the match, or a position that is verified), "
+             'never the bare list position', minimum=2)
+    base, classes = sched_classes(prog)
+    seen = set()
+    for K in classes:
+        f = prog.find_method(K, '_change_slot_states')
+        if f is None:
+            raise AnalysisError('%s._change_slot_states missing' % K.name)
+        if id(f) in seen:
+            continue
+        seen.add(id(f))
+        rep.saw(f)
+        sel = _NodeSelection(prog, K, base, f)
+        if not sel.writes(f):
+            raise AnalysisError('R03.11: %s: no write through self.nodes '
+                                'found' % f.where)
+        if not sel.sites:
+            raise AnalysisError('UNRECOGNISED-IDIOM %s: no node variable is '
+                                'written through' % f.where)
+        if not sel.problems:
+            for q, nv in sorted(sel.sites):
+                rep.ok(rid, f, '%s: every binding of `%s` that reaches an '
+                       'occupancy write is a selection by node index'
+                       % (q, nv), f.loc())
+        for (kind, q, txt), (ff, node, msg) in sorted(
+                sel.problems.items(), key=lambda kv: kv[0]):
+            rep.bad(rid, f, '%s:%s:%s' % (q, kind, txt), msg,
+                    ff.loc(node) if isinstance(node, ast.AST) else ff.loc(),
+                    history='backup nodes configured, node_01 found '
+                    'inaccessible: the node list keeps the indices [0, 2, '
+                    '3].  A task is placed on the node with index 2: BUSY is '
+                    'written to list position 2 (the node with index 3), the '
+                    'node with index 2 still shows its cores FREE and '
+                    '_find_resources hands the very same cores to the next '
+                    'task while the first one runs; the release then frees '
+                    'cores of the node with index 3 which a third task may '
+                    'hold')
+
+
+# ------------------------------------------------------------------------------
 #
 def run(prog, rep, tier):
     rep.decided = ('debit/credit symmetry of _change_slot_states (both '
@@ -1755,7 +2208,11 @@ def run(prog, rep, tier):
         'operator-valued spellings of the lfs/mem update are evaluated per '
         'direction (R03.1); the contender that won the registry arbitration '
         'in the Popen executor releases on every path that follows, also '
-        'when the arbitration sits in a helper (R03.8).')
+        'when the arbitration sits in a helper (R03.8); the node whose '
+        'occupancy is written for a slot was selected by comparing its index '
+        "with the slot's node_index on every path from its binding to the "
+        'write - search left on the match, guessed position verified, lookup '
+        'helpers followed - never the bare list position (R03.11).')
     rep.undecided = ('the NUMA-domain path (NumaNode.find_slot allocates on '
         'per-domain Node objects while release_slots credits the top-level '
         'node): needs alias reasoning over objects built at run time; real '
@@ -1780,6 +2237,7 @@ def run(prog, rep, tier):
     rep.attempt(r03_6, prog, rep)
     rep.attempt(r03_7, prog, rep)
     rep.attempt(r03_10, prog, rep)
+    rep.attempt(r03_11, prog, rep)
     try:
         from . import c07
         if hasattr(c07, 'r07_1'):
@@ -1942,6 +2400,24 @@ MUTATIONS = [
         (_N, "        for slot in slots:\n\n            node = self.nodes[slot.node_index]\n            node.deallocate_slot(slot)\n\n", "        for slot in slots:\n\n            for node in self.nodes:\n                if node.index == slot.node_index:\n                    continue\n                node.deallocate_slot(slot)\n                break\n\n")]),
     dict(name='R03.1 Node.allocate_slot: gpu bookings collected first, with a whole unit instead of the requested share', rules=('R03.1',), edits=[(_N, '            for ro in gpus:\n                g_idx = self._get_gpu_index(ro)\n                self.gpus[g_idx].occupation += ro.occupation\n', '            todo = [(self._get_gpu_index(ro), 1.0) for ro in gpus]\n            for g_idx, occ in todo:\n                self.gpus[g_idx].occupation += occ\n')]),
     dict(name='R03.7 lfs booked on every node visited by the lookup, before the match test; unknown node still raises', rules=('R03.7', 'R03.1'), edits=[(_B, "                if node['index'] == slot['node_index']:\n                    node_found = True\n                    break\n", "                if slot['lfs']:\n                    if new_state == rpc.BUSY:\n                        node['lfs'] -= slot['lfs']\n                    else:\n                        node['lfs'] += slot['lfs']\n                if node['index'] == slot['node_index']:\n                    node_found = True\n                    break\n"), (_B, "            if slot['lfs']:\n                if new_state == rpc.BUSY:\n                    node['lfs'] -= slot['lfs']\n                else:\n                    node['lfs'] += slot['lfs']\n\n", '')]),
+    dict(name="R03.11 node taken at list position slot['node_index'] as a fast path, search only as fallback (seed C03-i6)", rules=('R03.11',), edits=[
+        (_B, "            for node in self.nodes:\n                if node['index'] == slot['node_index']:\n                    node_found = True\n                    break\n", "            if slot['node_index'] < len(self.nodes):\n                node = self.nodes[slot['node_index']]\n                node_found = True\n            else:\n                for node in self.nodes:\n                    if node['index'] == slot['node_index']:\n                        node_found = True\n                        break\n")]),
+    dict(name="R03.11 jsrun: the search replaced by self.nodes[slot['node_index']]", rules=('R03.11',), edits=[
+        (_J, "            node = None\n            node_found = False\n            for node in self.nodes:\n                if node['index'] == slot['node_index']:\n                    node_found = True\n                    break\n\n            if not node_found:\n                raise RuntimeError('inconsistent node information')\n", "            node = self.nodes[slot['node_index']]\n")]),
+    dict(name='R03.11 search compares the list position (enumerate) with the node_index', rules=('R03.11',), edits=[
+        (_B, "            for node in self.nodes:\n                if node['index'] == slot['node_index']:\n                    node_found = True\n                    break\n", "            for pos, node in enumerate(self.nodes):\n                if pos == slot['node_index']:\n                    node_found = True\n                    break\n")]),
+    dict(name='R03.11 cores written through self.nodes[<node_index>] in place', rules=('R03.11',), edits=[
+        (_B, "                node['cores'][core['index']] = new_state\n", "                self.nodes[slot['node_index']]['cores'][core['index']] = new_state\n")]),
+    dict(name='R03.11 jsrun: hoisted node_index used as position behind a bounds check', rules=('R03.11',), edits=[
+        (_J, "            node = None\n            node_found = False\n            for node in self.nodes:\n                if node['index'] == slot['node_index']:\n                    node_found = True\n                    break\n\n            if not node_found:\n                raise RuntimeError('inconsistent node information')\n", "            idx = slot['node_index']\n            if idx >= len(self.nodes):\n                raise RuntimeError('inconsistent node information')\n            node = self.nodes[idx]\n")]),
+    dict(name='R03.11 lookup helper returns the node at position node_index', rules=('R03.11',), edits=[
+        (_B, "            node = None\n            node_found = False\n            for node in self.nodes:\n                if node['index'] == slot['node_index']:\n                    node_found = True\n                    break\n\n            if not node_found:\n                raise RuntimeError('inconsistent node information')\n", "            node = self._find_node(slot['node_index'])\n"),
+        (_B, '    def slot_status(self, msg=None, uid=None):\n', "    def _find_node(self, node_index):\n        if node_index >= len(self.nodes):\n            raise RuntimeError('inconsistent node information')\n        return self.nodes[node_index]\n\n    def slot_status(self, msg=None, uid=None):\n")]),
+    dict(name='R03.11 guessed position verified with the wrong polarity', rules=('R03.11',), edits=[
+        (_B, "            for node in self.nodes:\n                if node['index'] == slot['node_index']:\n                    node_found = True\n                    break\n", "            if slot['node_index'] < len(self.nodes):\n                node = self.nodes[slot['node_index']]\n                if node['index'] != slot['node_index']:\n                    node_found = True\n            if not node_found:\n                for node in self.nodes:\n                    if node['index'] == slot['node_index']:\n                        node_found = True\n                        break\n")]),
+    dict(name='R03.11 lookup helper is given the slot and indexes by position (IndexError converted)', rules=('R03.11',), edits=[
+        (_B, "            node = None\n            node_found = False\n            for node in self.nodes:\n                if node['index'] == slot['node_index']:\n                    node_found = True\n                    break\n\n            if not node_found:\n                raise RuntimeError('inconsistent node information')\n", '            node = self._node_of(slot)\n'),
+        (_B, '    def slot_status(self, msg=None, uid=None):\n', "    def _node_of(self, slot):\n        idx = slot['node_index']\n        try:\n            return self.nodes[idx]\n        except IndexError:\n            raise RuntimeError('inconsistent node information')\n\n    def slot_status(self, msg=None, uid=None):\n")]),
 ]
 
 SILENT = [
@@ -2041,4 +2517,15 @@ SILENT = [
         (_N, "        for slot in slots:\n\n            node = self.nodes[slot.node_index]\n            node.deallocate_slot(slot)\n\n", "        for slot in slots:\n\n            for node in self.nodes:\n                if node.index != slot.node_index:\n                    continue\n                node.deallocate_slot(slot)\n                break\n\n")]),
     dict(name='Node.allocate_slot: gpu bookings collected first, applied in a second loop (SILENT variant of C01)', edits=[(_N, '            for ro in gpus:\n                g_idx = self._get_gpu_index(ro)\n                self.gpus[g_idx].occupation += ro.occupation\n', '            todo = [(self._get_gpu_index(ro), ro.occupation) for ro in gpus]\n            for g_idx, occ in todo:\n                self.gpus[g_idx].occupation += occ\n')]),
     dict(name='_change_slot_states: lfs booked inside the node lookup loop, match branch (SILENT variant of C01)', edits=[(_B, "                if node['index'] == slot['node_index']:\n                    node_found = True\n                    break\n", "                if node['index'] == slot['node_index']:\n                    node_found = True\n                    if slot['lfs']:\n                        if new_state == rpc.BUSY:\n                            node['lfs'] -= slot['lfs']\n                        else:\n                            node['lfs'] += slot['lfs']\n                    break\n"), (_B, "            if slot['lfs']:\n                if new_state == rpc.BUSY:\n                    node['lfs'] -= slot['lfs']\n                else:\n                    node['lfs'] += slot['lfs']\n\n", '')]),
+    dict(name='_change_slot_states: node guessed by position, verified by its index, search as fallback', edits=[
+        (_B, "            for node in self.nodes:\n                if node['index'] == slot['node_index']:\n                    node_found = True\n                    break\n", "            if slot['node_index'] < len(self.nodes):\n                node = self.nodes[slot['node_index']]\n                if node['index'] == slot['node_index']:\n                    node_found = True\n            if not node_found:\n                for node in self.nodes:\n                    if node['index'] == slot['node_index']:\n                        node_found = True\n                        break\n")]),
+    dict(name='jsrun _change_slot_states: node search in early-continue form', edits=[
+        (_J, "            for node in self.nodes:\n                if node['index'] == slot['node_index']:\n                    node_found = True\n                    break\n", "            for node in self.nodes:\n                if node['index'] != slot['node_index']:\n                    continue\n                node_found = True\n                break\n")]),
+    dict(name='_change_slot_states: node search in a helper that is given the slot (hoisted key, operands swapped)', edits=[
+        (_B, "            node = None\n            node_found = False\n            for node in self.nodes:\n                if node['index'] == slot['node_index']:\n                    node_found = True\n                    break\n\n            if not node_found:\n                raise RuntimeError('inconsistent node information')\n", '            node = self._node_of(slot)\n'),
+        (_B, '    def slot_status(self, msg=None, uid=None):\n', "    def _node_of(self, slot):\n        want = slot['node_index']\n        for cand in self.nodes:\n            if want == cand['index']:\n                return cand\n        raise RuntimeError('inconsistent node information')\n\n    def slot_status(self, msg=None, uid=None):\n")]),
+    dict(name='jsrun _change_slot_states: guessed position, mismatch falls back to a search binding another local', edits=[
+        (_J, "            node = None\n            node_found = False\n            for node in self.nodes:\n                if node['index'] == slot['node_index']:\n                    node_found = True\n                    break\n\n            if not node_found:\n                raise RuntimeError('inconsistent node information')\n", "            idx = slot['node_index']\n            node = self.nodes[idx] if idx < len(self.nodes) else None\n            if node is None or node['index'] != idx:\n                node = None\n                for cand in self.nodes:\n                    if cand['index'] == idx:\n                        node = cand\n                        break\n            if node is None:\n                raise RuntimeError('inconsistent node information')\n")]),
+    dict(name='_change_slot_states: the slot list wrapped by a call before it is iterated', edits=[
+        (_B, "        # for node_name, node_index, cores, gpus in slots['ranks']:\n        for slot in slots:\n", '        for slot in list(slots or []):\n')]),
 ]
